@@ -215,7 +215,7 @@ class Body:
             out.append(rv['place'])
         return out
 
-    def backward_slice(self, locals_, through_calls=True, max_steps=10000):
+    def backward_slice(self, locals_, through_calls=True, max_steps=10000, cut=None):
         """set of locals the given locals (transitively) derive from; also returns the call terminators and
         statements visited"""
         seen = set()
@@ -238,7 +238,7 @@ class Body:
                                 work.append(e['index'])
                 else:
                     calls.append((b, x))
-                    if through_calls:
+                    if through_calls and not (cut is not None and cut(x)):
                         for o in x['args']:
                             ll = op_local(o)
                             if ll is not None:
@@ -278,8 +278,13 @@ class Mir:
         has implementations in the crate: every implementation may run (class-hierarchy analysis)"""
         import re
         c = self.callee_of(t)
-        if c in self.bodies or '::' not in c:
+        virtual = (t.get('self_ty') or '').startswith('dyn ') or not t.get('callee')
+        if (c in self.bodies and not virtual) or '::' not in c:
             return []
+        if c in self.bodies:
+            # a provided method of a crate trait called on a trait object / a bounded type parameter: the implementations that override it may run
+            tr, _, me = re.sub(r'::<[^>]*>', '', c).rpartition('::')
+            return [x for x in self.trait_impls().get((tr, me), []) if x != c]
         # formatting machinery: `format_args!("{}", x)` stores <T as Display>::fmt as a function pointer (Argument::new_display::<T>), `x.to_string()` runs
         # it through the blanket impl - the implementation of the crate is what runs
         fm = re.match(r"^core::fmt::rt::Argument::<'_>::new_(display|debug|lower_hex|upper_hex|lower_exp|upper_exp|octal|binary|pointer)$", c)
@@ -364,6 +369,9 @@ class Mir:
                     c = self.callee_of(t)
                     if c in self.bodies:
                         g[n].add(c)
+                        ap = set(self.dyn_candidates(t))
+                        self.approx_edges.update((n, c_) for c_ in ap if c_ not in g[n])
+                        g[n].update(ap)
                     else:
                         ap = set(self.dyn_candidates(t, fmt=True)) | set(self.generic_candidates(t)) | set(self.indirect_candidates(t))
                         self.approx_edges.update((n, c_) for c_ in ap if c_ not in g[n])
@@ -661,9 +669,10 @@ def inlined(mir, name, depth=2, max_blocks=400, skip=()):
             if t['k'] != 'call':
                 continue
             callee = t['callee'] or t['raw']
-            if callee not in mir.bodies and t.get('target') is not None:
-                cands = [c_ for c_ in mir.dyn_candidates(t) if c_ not in rec and c_ not in skip and c_ != name]
-                if cands and len(cands) == len(mir.dyn_candidates(t)):
+            if (callee not in mir.bodies or mir.dyn_candidates(t)) and t.get('target') is not None and not t.get('devirt'):
+                allc = mir.dyn_candidates(t) + ([callee] if callee in mir.bodies else [])
+                cands = [c_ for c_ in allc if c_ not in rec and c_ not in skip and c_ != name]
+                if cands and len(cands) == len(allc):
                     # dynamic dispatch: any implementation of the crate may run - a switch on an undefined selector over one call per implementation
                     # (an over-approximation: which one runs is decided by the type the receiver was unsized from)
                     sel = len(j['locals'])
